@@ -2,6 +2,7 @@ package main
 
 import (
 	"fmt"
+	"go/ast"
 	"go/token"
 	"go/types"
 	"sort"
@@ -268,12 +269,193 @@ func modePairs(fn *ssa.Function) map[string]bool {
 	return out
 }
 
+// tableField recognises a field of an element of a package-level table ("t.stat" with t ranging
+// over a global slice or array of structs): the global, the element value and the field index.
+func tableField(v ssa.Value) (g *ssa.Global, elem ssa.Value, field int, ok bool) {
+	for {
+		switch x := v.(type) {
+		case *ssa.Convert:
+			v = x.X
+			continue
+		case *ssa.ChangeType:
+			v = x.X
+			continue
+		}
+		break
+	}
+	var ia *ssa.IndexAddr
+	switch x := v.(type) {
+	case *ssa.Field:
+		ld, isLd := x.X.(*ssa.UnOp)
+		if !isLd || ld.Op != token.MUL {
+			return nil, nil, 0, false
+		}
+		ia, _ = ld.X.(*ssa.IndexAddr)
+		elem, field = ld, x.Field
+	case *ssa.UnOp:
+		if x.Op != token.MUL {
+			return nil, nil, 0, false
+		}
+		fa, isFA := x.X.(*ssa.FieldAddr)
+		if !isFA {
+			return nil, nil, 0, false
+		}
+		ia, _ = fa.X.(*ssa.IndexAddr)
+		elem, field = fa.X, fa.Field
+		// the range variable: a local copy of the row
+		if al, isAl := fa.X.(*ssa.Alloc); isAl {
+			if sts := storesTo(al); len(sts) == 1 {
+				if ld, isLd := sts[0].Val.(*ssa.UnOp); isLd && ld.Op == token.MUL {
+					ia, _ = ld.X.(*ssa.IndexAddr)
+				}
+			}
+		}
+	}
+	if ia == nil {
+		return nil, nil, 0, false
+	}
+	base := ia.X
+	if ld, isLd := base.(*ssa.UnOp); isLd && ld.Op == token.MUL {
+		base = ld.X
+	}
+	g, ok = base.(*ssa.Global)
+	return g, elem, field, ok
+}
+
+// tableRows returns the constant rows of a package-level table of structs from its composite
+// literal, or nil if an entry is not constant or the table is written outside its initialiser.
+func (c *Ctx) tableRows(g *ssa.Global) [][]string {
+	for _, fn := range c.libFuncs() {
+		if fn.Name() == "init" {
+			continue
+		}
+		written := false
+		instrs(fn, func(_ *ssa.BasicBlock, _ int, ins ssa.Instruction) {
+			if st, ok := ins.(*ssa.Store); ok && hasOrigin(st.Addr, func(o string) bool { return o == "global:"+g.Name() }) {
+				written = true
+			}
+		})
+		if written {
+			return nil
+		}
+	}
+	var rows [][]string
+	for _, f := range c.Lib.Syntax {
+		for _, d := range f.Decls {
+			gd, ok := d.(*ast.GenDecl)
+			if !ok || gd.Tok != token.VAR {
+				continue
+			}
+			for _, sp := range gd.Specs {
+				vs := sp.(*ast.ValueSpec)
+				for i, nm := range vs.Names {
+					if nm.Name != g.Name() || i >= len(vs.Values) {
+						continue
+					}
+					lit, ok := vs.Values[i].(*ast.CompositeLit)
+					if !ok {
+						return nil
+					}
+					for _, el := range lit.Elts {
+						rl, ok := el.(*ast.CompositeLit)
+						if !ok {
+							return nil
+						}
+						var row []string
+						for _, fe := range rl.Elts {
+							if _, isKV := fe.(*ast.KeyValueExpr); isKV {
+								return nil // keyed rows: field order not positional
+							}
+							tv, ok := c.Lib.TypesInfo.Types[fe]
+							if !ok || tv.Value == nil {
+								return nil
+							}
+							row = append(row, tv.Value.ExactString())
+						}
+						rows = append(rows, row)
+					}
+				}
+			}
+		}
+	}
+	return rows
+}
+
+// tableModePairs: the table-driven form of the conversions - a loop over a constant table whose
+// rows pair an st_mode pattern with a FileMode pattern; the branch on field i of the row uses
+// field j of the same row in its body.
+func (c *Ctx) tableModePairs(fn *ssa.Function) map[string]bool {
+	out := map[string]bool{}
+	for _, b := range fn.Blocks {
+		iff := lastIf(b)
+		if iff == nil {
+			continue
+		}
+		cm, truth, ok := cmpOf(iff.Cond)
+		if !ok {
+			continue
+		}
+		var g *ssa.Global
+		var elem ssa.Value
+		var fi int
+		found := false
+		switch cm.op {
+		case token.EQL:
+			for _, side := range []ssa.Value{cm.x, cm.y} {
+				if g0, e0, f0, ok := tableField(side); ok {
+					g, elem, fi, found = g0, e0, f0, true
+				}
+			}
+		case token.NEQ:
+			if z, ok := cm.y.(*ssa.Const); ok && z.Value != nil && z.Int64() == 0 {
+				if and, ok := cm.x.(*ssa.BinOp); ok && and.Op == token.AND {
+					for _, side := range []ssa.Value{and.X, and.Y} {
+						if g0, e0, f0, ok := tableField(side); ok {
+							g, elem, fi, found = g0, e0, f0, true
+						}
+					}
+				}
+			}
+		}
+		if !found {
+			continue
+		}
+		body := b.Succs[1]
+		if truth {
+			body = b.Succs[0]
+		}
+		fj := -1
+		for _, ins := range body.Instrs {
+			if v, ok := ins.(ssa.Value); ok {
+				if g1, e1, f1, ok := tableField(v); ok && g1 == g && e1 == elem && f1 != fi {
+					fj = f1
+				}
+			}
+		}
+		if fj < 0 {
+			continue
+		}
+		for _, row := range c.tableRows(g) {
+			if fi < len(row) && fj < len(row) {
+				out[row[fi]+"->"+row[fj]] = true
+			}
+		}
+	}
+	return out
+}
+
 func c05ModeTables(c *Ctx) {
 	a, b := c.mustFn("StatModeToFilemode"), c.mustFn("FilemodeToStatMode")
 	if a == nil || b == nil {
 		return
 	}
 	pa, pb := modePairs(a), modePairs(b)
+	for p := range c.tableModePairs(a) {
+		pa[p] = true
+	}
+	for p := range c.tableModePairs(b) {
+		pb[p] = true
+	}
 	var bad []string
 	for p := range pa {
 		parts := strings.Split(p, "->")
